@@ -123,7 +123,7 @@ fn gen_targeted(g: &mut Gen, bs: &[u8]) -> mutate::Edit {
         7 if !seqs.is_empty() => {
             // empty container in place of a non-empty one is only well-formed if the items go too; otherwise count - 1 / + 1
             let h = seqs[g.rng.below(seqs.len() as u64) as usize];
-            let v = match g.rng.below(3) { 0 => h.val.saturating_sub(1), 1 => h.val + 1, _ => 0 };
+            let v = match g.rng.below(3) { 0 => h.val.saturating_sub(1), 1 => h.val.wrapping_add(1), _ => 0 };
             mutate::Edit { pos: h.pos, len: 1 + h.arglen, with: mutate::enc_head(h.major, v, h.arglen as u8) }
         }
         _ => mutate::gen_edit(&mut g.rng, bs, &hs),
@@ -271,6 +271,10 @@ fn edgy_mint(g: &mut Gen) -> synth::Groups {
 }
 
 pub fn generate(g: &mut Gen) {
+    if let Err(w) = catch(|| generate_inner(g)) { eprintln!("valtotal generator panicked: {w}"); std::process::exit(101); }
+}
+
+fn generate_inner(g: &mut Gen) {
     let fx = fixtures::all();
     // the corners named in DESIGN §6 #20 / #31, once each
     let mut first = vec![];
